@@ -282,15 +282,31 @@ def rule_stores(ck, parse, sel):
 def rule_default(ck):
     fi = ck.func(F, "_Option.value")
     rets = [n for n in own_nodes(fi.node) if isinstance(n, ast.Return)]
-    if len(rets) != 1 or rets[0].value is None:
-        raise AnalysisError("_Option.value is not a single return expression: unknown idiom")
-    unset = object()
-    try:
-        a = q.fold(rets[0].value, {"self._value": unset, "_Option.UNSET": unset, "self.UNSET": unset, "self.default": "DEFAULT"})
-        b = q.fold(rets[0].value, {"self._value": 0, "_Option.UNSET": unset, "self.UNSET": unset, "self.default": "DEFAULT"})
-        c = q.fold(rets[0].value, {"self._value": None, "_Option.UNSET": unset, "self.UNSET": unset, "self.default": "DEFAULT"})
-    except q.NotFoldable as e:
-        raise AnalysisError("_Option.value expression not foldable: %s" % e)
+    if not rets or any(r.value is None for r in rets):
+        raise AnalysisError("_Option.value does not return a value on every return: unknown idiom")
+    unset = "<UNSET>"
+
+    def run_value(cur):
+        env0 = {"self._value": cur, "_Option.UNSET": unset, "self.UNSET": unset, "self.default": "DEFAULT"}
+
+        def event(n, env):
+            if n.kind == "stmt" and isinstance(n.ast, ast.Return):
+                e2 = dict(env0)
+                e2.update(env)
+                try:
+                    return "ret=%r" % (q.fold(n.ast.value, e2),)
+                except q.NotFoldable as e:
+                    raise AnalysisError("_Option.value expression not foldable: %s" % e)
+            return None
+
+        outs = concrete_paths(fi, env0, event, event_env=True)
+        vals = sorted({t[-1] for k_, t in outs if k_ == "return" and t})
+        if len(vals) != 1:
+            raise AnalysisError("_Option.value: result for _value=%r is not determined by folding (%s)" % (cur, vals))
+        return vals[0]
+
+    a, b, c = run_value(unset), run_value(0), run_value(None)
+    a, b, c = ("DEFAULT" if a == "ret='DEFAULT'" else a), (0 if b == "ret=0" else b), (None if c == "ret=None" else c)
     ck.ob("C44.default", fi, rets[0], a == "DEFAULT" and b == 0 and c is None, "value() is the default exactly when nothing was parsed/set; an explicitly set falsy value (0, None) is kept")
     init = ck.func(F, "_Option.__init__")
     st = [s for s in q.stores_to(init.node, "self._value")]
